@@ -1,0 +1,26 @@
+//go:build verif
+
+package grpchan
+
+// Re-exports of the internal package for the external verification harness
+// (a module outside this one cannot import internal/). Compiled only with
+// `-tags verif`; adds no behaviour.
+
+import (
+	"github.com/fullstorydev/grpchan/internal"
+)
+
+type VerifCallOptions = internal.CallOptions
+type VerifUnaryServerTransportStream = internal.UnaryServerTransportStream
+type VerifServerTransportStream = internal.ServerTransportStream
+
+var (
+	VerifGetCallOptions        = internal.GetCallOptions
+	VerifApplyPerRPCCreds      = internal.ApplyPerRPCCreds
+	VerifTranslateContextError = internal.TranslateContextError
+	VerifCopyMessage           = internal.CopyMessage
+	VerifCloneMessage          = internal.CloneMessage
+	VerifClearMessage          = internal.ClearMessage
+	VerifFindUnaryMethod       = internal.FindUnaryMethod
+	VerifFindStreamingMethod   = internal.FindStreamingMethod
+)
